@@ -509,5 +509,5 @@ SYSTEMS = [
     # the same alphabet, one level deeper, from the core starts (satellites can also be created by actions)
     C14('c14.full', 'full', 3, 4, ('l', 'l1', 'g', 'm', 'mc', 'm1'), ('none', 'proxy', 'link', 'view'), only=_CORE, tcap_q=150, tcap_t=900),
     # reduced alphabet (restoring mutations, whole-phase moves, reads through every object), deep histories
-    C14('c14.deep', 'deep', 5, 7, ('l', 'l1', 'm', 'm1'), ('none', 'proxy', 'link', 'view'), warm=(False,), only=_DEEP, tcap_q=120, tcap_t=600),
+    C14('c14.deep', 'deep', 4, 7, ('l', 'l1', 'm', 'm1'), ('none', 'proxy', 'link', 'view'), warm=(False,), only=_DEEP, tcap_q=120, tcap_t=600),
 ]
